@@ -90,8 +90,10 @@ Proof.
   - apply xq_div_correct in H. tauto.
   - apply xq_div_correct in H. tauto.
   - destruct (xq_to_Z y) as [k | ] eqn:Hk; [ | discriminate ].
+    destruct (Z.leb (Z.abs k) POW_BOUND); [ | discriminate ].
     exists k. split; [ apply xq_to_Z_correct; auto | apply xq_pow_correct; auto ].
   - destruct (xq_to_Z x) as [k | ] eqn:Hk; [ | discriminate ].
+    destruct (Z.leb (Z.abs k) POW_BOUND); [ | discriminate ].
     exists k. split; [ apply xq_to_Z_correct; auto | apply xq_pow_correct; auto ].
 Qed.
 
@@ -138,8 +140,8 @@ Proof.
   - exists q. split; [ exact He | reflexivity ].
   - exists q. split; [ exact He | reflexivity ].
   (* pow, rpow *)
-  - destruct (xq_to_Z xo) as [k | ]; [ | discriminate ]. rewrite Hb. exists q. split; [ exact He | reflexivity ].
-  - destruct (xq_to_Z xs) as [k | ]; [ | discriminate ]. rewrite Hb. exists q. split; [ exact He | reflexivity ].
+  - destruct (xq_to_Z xo) as [k | ]; [ | discriminate ]. rewrite Hb in He |- *. exists q. split; [ exact He | reflexivity ].
+  - destruct (xq_to_Z xs) as [k | ]; [ | discriminate ]. rewrite Hb in He |- *. exists q. split; [ exact He | reflexivity ].
 Qed.
 
 Lemma sel_prec_ok : forall k psel ps other xo,
